@@ -2,6 +2,8 @@
 
 from __future__ import annotations
 
+import ast
+
 from ..degrees import check_degree
 from ..dimscan import scan
 from ..index import AnalysisError, FuncInfo
@@ -146,6 +148,108 @@ def run(index, tier="quick", seed=0) -> Result:
                 "ellipse is implicitly rotated by 90 degrees whenever b > a")
     else:
         raise AnalysisError("ELL-1: dependence of Ellipse.distance_to_surface on the semi-axes not recognised")
+    _ell2(res, efn)
     from ..labelrule import report as _label
     _label(res, index, lambda cls_, fn_: fn_ == "distance_to_surface" or fn_.startswith("_get_outward"))
     return res
+
+
+def _ell2(res, efn):
+    """ELL-2: the closed form returned by Ellipse.distance_to_surface is, as a symbolic expression in a, b > 0 and the angle,
+    identical to the polar form of the ellipse a b / sqrt((b cos t)^2 + (a sin t)^2) (sympy simplification of the source
+    expression; locals bound once are looked through).  An expression outside the translated fragment gives no verdict."""
+    try:
+        import sympy as sp
+    except Exception:
+        res.not_in_fragment.append("ELL-2: sympy not available")
+        return
+    from ..astutil import single_assignments
+    env = single_assignments(efn.node)
+    a, b = sp.symbols("a b", positive=True)
+    t = sp.symbols("t", real=True)
+    angle_names = {efn.params[1]} if len(efn.params) > 1 else {"angles"}
+
+    class Out(Exception):
+        pass
+
+    def tr(n, depth=0):
+        if depth > 12:
+            raise Out()
+        if isinstance(n, ast.Constant) and isinstance(n.value, (int, float)) and not isinstance(n.value, bool):
+            return sp.nsimplify(n.value)
+        if isinstance(n, ast.Name):
+            if n.id in angle_names:
+                return t
+            if n.id in env:
+                return tr(env[n.id], depth + 1)
+            raise Out()
+        if isinstance(n, ast.Attribute):
+            txt = ast.unparse(n)
+            if txt in ("self.a", "self._a"):
+                return a
+            if txt in ("self.b", "self._b"):
+                return b
+            if txt in ("np.pi", "numpy.pi", "math.pi"):
+                return sp.pi
+            raise Out()
+        if isinstance(n, ast.UnaryOp) and isinstance(n.op, ast.USub):
+            return -tr(n.operand, depth + 1)
+        if isinstance(n, ast.BinOp):
+            l_, r_ = tr(n.left, depth + 1), tr(n.right, depth + 1)
+            if isinstance(n.op, ast.Add):
+                return l_ + r_
+            if isinstance(n.op, ast.Sub):
+                return l_ - r_
+            if isinstance(n.op, ast.Mult):
+                return l_ * r_
+            if isinstance(n.op, ast.Div):
+                return l_ / r_
+            if isinstance(n.op, ast.Pow):
+                return l_ ** r_
+            raise Out()
+        if isinstance(n, ast.Call):
+            f = ast.unparse(n.func).split(".")[-1]
+            args = [tr(x, depth + 1) for x in n.args]
+            if f in ("asarray", "array", "atleast_1d", "float64", "asanyarray") and args:
+                return args[0]
+            if f in ("mod", "remainder", "fmod") and len(args) == 2 and sp.simplify(args[1] - 2 * sp.pi) == 0:
+                return args[0]                     # the closed form has period 2 pi
+            one = {"sin": sp.sin, "cos": sp.cos, "tan": sp.tan, "sqrt": sp.sqrt, "square": lambda x: x ** 2, "abs": sp.Abs, "absolute": sp.Abs}
+            if f in one and len(args) == 1:
+                return one[f](args[0])
+            if f == "hypot" and len(args) == 2:
+                return sp.sqrt(args[0] ** 2 + args[1] ** 2)
+            if f == "power" and len(args) == 2:
+                return args[0] ** args[1]
+            raise Out()
+        raise Out()
+
+    rets = [n.value for n in ast.walk(efn.node) if isinstance(n, ast.Return) and n.value is not None]
+    if len(rets) != 1:
+        res.not_in_fragment.append("ELL-2: not a single returned expression")
+        return
+    try:
+        expr = tr(rets[0])
+    except Out:
+        res.not_in_fragment.append("ELL-2: returned expression outside the translated fragment")
+        return
+    except Exception:
+        res.not_in_fragment.append("ELL-2: translation failed")
+        return
+    want = a * b / sp.sqrt((b * sp.cos(t)) ** 2 + (a * sp.sin(t)) ** 2)
+    try:
+        same = sp.simplify(expr ** 2 - want ** 2) == 0 and sp.simplify(expr.subs(t, 0) - a) == 0
+        at0, at90 = sp.simplify(expr.subs(t, 0)), sp.simplify(expr.subs(t, sp.pi / 2))
+    except Exception:
+        res.not_in_fragment.append("ELL-2: simplification failed")
+        return
+    k = "Ellipse.distance_to_surface:polar-form"
+    if same:
+        res.ok("ELL-2", k, sample={"closed_form": str(sp.simplify(expr))[:120], "r(0)": str(at0), "r(pi/2)": str(at90)})
+    elif sp.simplify(at0 - a) != 0 or sp.simplify(at90 - b) != 0:
+        res.bad("ELL-2", k + ":axes", f"{efn.file}:{rets[0].lineno}", f"Ellipse.distance_to_surface returns {at0} along the x axis (angle 0) and {at90} along the y axis "
+                f"(angle pi/2); the ellipse x^2/a^2 + y^2/b^2 = 1 reaches a and b there (the semi-axes are paired with the wrong trigonometric functions)")
+    else:
+        res.bad("ELL-2", k, f"{efn.file}:{rets[0].lineno}", "Ellipse.distance_to_surface is not the polar form a b / sqrt((b cos t)^2 + (a sin t)^2) of the ellipse "
+                f"(it agrees on the axes only): found {str(sp.simplify(expr))[:100]}")
+
